@@ -158,12 +158,17 @@ export const ReplacerFunc = (key: string, value: unknown): unknown => {{
 
         writeln!(
             w,
-            "export type {}{} = {}{};\n",
+            "export type {}{} = {}{}{};\n",
             ty.id.renamed,
             (!ty.generic_types.is_empty())
                 .then(|| format!("<{}>", ty.generic_types.join(", ")))
                 .unwrap_or_default(),
             r#type,
+            // Option<Option<T>> stays distinguishable from Option<T>, as in write_field
+            ty.r#type
+                .is_double_optional()
+                .then_some(" | null")
+                .unwrap_or_default(),
             ty.r#type
                 .is_optional()
                 .then_some(" | undefined")
@@ -297,12 +302,16 @@ impl TypeScript {
                             .map_err(|e| io::Error::new(io::ErrorKind::Other, e))?;
                         write!(
                             w,
-                            "\t| {{ {}: {:?}, {}{}: {} }}",
+                            "\t| {{ {}: {:?}, {}{}: {}{} }}",
                             tag_key,
                             shared.id.renamed,
                             content_key,
                             ty.is_optional().then_some("?").unwrap_or_default(),
-                            r#type
+                            r#type,
+                            // Option<Option<T>> stays distinguishable from Option<T>, as in write_field
+                            ty.is_double_optional()
+                                .then_some(" | null")
+                                .unwrap_or_default()
                         )
                     }
                     RustEnumVariant::AnonymousStruct { fields, shared } => {
